@@ -1074,3 +1074,73 @@ Qed.
 Theorem history_independent : forall E history st a o d,
   last (read_session E (history ++ [(st, a, o)])) d = read_current E st a o.
 Proof. intros E history st a o d. unfold read_session. rewrite map_app. simpl. apply last_last. Qed.
+
+(* ================================================================ C14_checksum_survives_history *)
+Lemma entry_checksum_kept : forall added c, gen_entry_checksum added c = c.
+Proof. intros [|] c; reflexivity. Qed.
+
+Definition same_entry (d a : dfile) : Prop := dpath d = dpath a /\ dcount d = dcount a /\ dsum d = dsum a.
+
+Lemma written_same : forall b d, same_entry (written_entry b d) d.
+Proof. intros b d. unfold same_entry, written_entry. simpl. rewrite entry_checksum_kept. auto. Qed.
+
+(* d is (a carried-over copy of) an entry some commit of h appended *)
+Definition origin (h : list commit) (d : dfile) : Prop :=
+  exists c a, In c h /\ In a (c_appended c) /\ same_entry d a.
+
+Lemma origin_more : forall h h' d, origin h d -> origin (h ++ h') d.
+Proof. intros h h' d [c [a [Hc H]]]. exists c, a. split; [apply in_or_app; left; exact Hc|exact H]. Qed.
+
+Lemma same_trans : forall d e a, same_entry d e -> same_entry e a -> same_entry d a.
+Proof. unfold same_entry. intros d e a [H1 [H2 H3]] [H4 [H5 H6]]. repeat split; congruence. Qed.
+
+Lemma create_manifest_in : forall added existing d, In d (create_manifest added existing) ->
+  exists e, (In e added \/ In e existing) /\ same_entry d e.
+Proof.
+  intros added existing d H. unfold create_manifest in H. apply in_app_or in H.
+  destruct H as [H|H]; apply in_map_iff in H; destruct H as [e [<- He]]; exists e; split; auto; apply written_same.
+Qed.
+
+Lemma rewrite_step_in : forall del dfs m d, In m (rewrite_step del dfs) -> In d m -> exists e, In e dfs /\ same_entry d e.
+Proof.
+  intros del dfs m d Hm Hd. unfold rewrite_step in Hm.
+  destruct (Nat.eqb (List.length (survivors del dfs)) (List.length dfs)).
+  - destruct Hm as [<-|[]]. exists d. split; [exact Hd|unfold same_entry; auto].
+  - destruct (survivors del dfs) as [|x tl] eqn:Hs; [contradiction|]. destruct Hm as [<-|[]].
+    apply create_manifest_in in Hd. destruct Hd as [e [[[]|He] Hsame]]. exists e. split; [|exact Hsame].
+    assert (Hin : In e (survivors del dfs)) by (rewrite Hs; exact He). unfold survivors in Hin. apply filter_In in Hin. apply Hin.
+Qed.
+
+Lemma apply_commit_origin : forall h ms c,
+  (forall m d, In m ms -> In d m -> origin h d) ->
+  forall m d, In m (apply_commit ms c) -> In d m -> origin (h ++ [c]) d.
+Proof.
+  intros h ms c Hinv m d Hm Hd. unfold apply_commit in Hm. apply in_app_or in Hm. destruct Hm as [Hm|Hm].
+  - apply origin_more. destruct (c_deleted c) as [|k del]; [eapply Hinv; eauto|].
+    apply in_flat_map in Hm. destruct Hm as [m0 [Hm0 Hm]].
+    destruct (rewrite_step_in _ _ _ _ Hm Hd) as [e [He Hsame]].
+    destruct (Hinv m0 e Hm0 He) as [c0 [a [Hc0 [Ha Hea]]]]. exists c0, a. split; [exact Hc0|]. split; [exact Ha|].
+    eapply same_trans; eauto.
+  - destruct (c_appended c) as [|x app] eqn:Happ; [contradiction|]. destruct Hm as [<-|[]].
+    apply create_manifest_in in Hd. destruct Hd as [e [[He|[]] Hsame]].
+    exists c, e. split; [apply in_or_app; right; left; reflexivity|]. split; [rewrite Happ; exact He|exact Hsame].
+Qed.
+
+Lemma fold_history_origin : forall h h0 ms,
+  (forall m d, In m ms -> In d m -> origin h0 d) ->
+  forall m d, In m (fold_left apply_commit h ms) -> In d m -> origin (h0 ++ h) d.
+Proof.
+  induction h as [|c h IH]; intros h0 ms Hinv m d Hm Hd; simpl in *.
+  - rewrite app_nil_r. eapply Hinv; eauto.
+  - replace (h0 ++ c :: h) with ((h0 ++ [c]) ++ h) by (rewrite <- app_assoc; reflexivity).
+    eapply IH; [|exact Hm|exact Hd]. apply apply_commit_origin. exact Hinv.
+Qed.
+
+Theorem checksum_survives_history : forall h m d,
+  In m (run_history h) -> In d m ->
+  exists c a, In c h /\ In a (c_appended c) /\ dpath d = dpath a /\ dcount d = dcount a /\ dsum d = dsum a.
+Proof.
+  intros h m d Hm Hd. unfold run_history in Hm.
+  destruct (fold_history_origin h [] [] (fun m0 d0 H => match H with end) m d Hm Hd) as [c [a [Hc [Ha [H1 [H2 H3]]]]]].
+  exists c, a. auto.
+Qed.
